@@ -5,6 +5,32 @@ ROOT = os.path.dirname(os.path.dirname(os.path.abspath(__file__)))
 TRUST = ("TLC 1.8.0 + CommunityModules; the harness's independent raw-socket codec and recording handlers; bounds as in the "
          "spec/mc/*.cfg named in the evidence; default cargo features plus vhost-kern/vdpa/net/vsock (xen, postcopy excluded)")
 CLAIMS = {
+ "C11": ("model_checking", "2/C11",
+   "VringLifecycle.tla (ring started/enabled/kick/pending per the protocol) is model-checked (every (state, letter) transition of the "
+   "2-ring model, all 1-ring histories to depth 5/6); each is replayed on a real VhostUserDaemon over a real socket; a barrier listener "
+   "brings the workers to quiescence after every letter so the exact set of dispatched rings is observed, and TLC validates it against "
+   "the model.",
+   "TLA+ model checking (TLC) + model-based test generation + TLC trace validation"),
+ "C13": ("model_checking", "2/C13",
+   "MemTable.tla over a pool of adjacent/overlapping/far/duplicate regions: every (table, update) transition and all depth-3/4 histories "
+   "are replayed on a real daemon with concrete 64-bit geometries; bytes are cross-probed through the backing files and the backend's "
+   "guest memory, update_memory snapshots/counts and SET_VRING_ADDR translations are validated by TLC.",
+   "TLA+ model checking (TLC) + model-based test generation + TLC trace validation"),
+ "C14": ("model_checking", "2/C14",
+   "RingConfig.tla post-conditions over all depth-2/3 letter histories (sizes, bases, used indexes, feature masks, out-of-range ring "
+   "indexes, protocol-feature subsets + backend-request channel, call descriptors, backend ring use on a switched memory table); the "
+   "backend-visible queue state is sampled inside the event handler after every letter and validated by TLC.",
+   "TLA+ model checking (TLC) + model-based test generation + TLC trace validation"),
+ "C15": ("model_checking", "2/C15",
+   "DirtyLog.tla page arithmetic over histories of table changes, SET_LOG_BASE (too small to ample, offsets) and writes crossing page and "
+   "region boundaries; the shared log file and guard bytes are read after every write and the set of newly set bits is validated by TLC. "
+   "The concurrent-writer clause is an exploration-level stress whose rounds are each checked for a lost bit.",
+   "TLA+ model checking (TLC) + model-based test generation + TLC trace validation; stress for the race clause"),
+ "C17": ("model_checking", "2/C17",
+   "Routing.tla: TLC checks the routing functions over every assignment of 1..3/4 queues to 1..3 masks (owner uniqueness, rank = slice "
+   "index, no collision with the exit id) and every configuration is instantiated as a real daemon whose every queue is kicked; TLC "
+   "validates (thread, event id, ring slice) of each dispatch and the fate of custom listener ids over the 64-bit range.",
+   "TLA+ model checking (TLC) over all small configurations + replay + TLC trace validation"),
  "C19": ("exploration", "2/C19",
    "KernBackend.tla carries the UAPI (ioctl numbers, argument layouts, IOTLB v1/v2 selection by acknowledged features, refusal classes) "
    "and is cross-checked by TLC against a C program compiled with the installed <linux/vhost.h>; TLC enumerates operations x classes x "
